@@ -54,9 +54,32 @@ package drbg
 //@   heapnonnil
 //@   modifies everything
 
-//@ func (*CtrDrbg).derive trusted
+// Block_Cipher_df (SP 800-90A 10.3.2): the string handed to BCC is the counter block followed by
+// L || N || input || 0x80 padded with zeros to the NEXT multiple of the block length (no further block),
+// for every input length; memory safety of the whole function
+//@ pred ctrshape(cd) := cd != nil && (len(cd.v) == 8 || len(cd.v) == 16) && 0 < cd.keyLen && cd.keyLen <= 64 && cd.seedLength == cd.keyLen + len(cd.v)
+//@ func (*CtrDrbg).bcc trusted
+//@   requires block != nil
+//@   ensures len(result) == BS(id(block))
+//@   fresh result
+//@   modifies nothing
+//@ func (*CtrDrbg).derive property C17
+//@   requires ctrshape(cd) && returnBytes == cd.seedLength && len(seedMaterial) < 2147483648
+//@   let OL := len(cd.v)
+//@   let SL := len(seedMaterial)
 //@   ensures len(result) == returnBytes
 //@   modifies nothing
+//@   assert before call bcc#1: len(arg2) % OL == 0 && len(arg2) >= OL + 8 + SL + 1 && len(arg2) < OL + 8 + SL + 1 + OL
+//@   assert before call bcc#1: arg2[OL + 8 + SL] == 128
+//@   assert before call bcc#1: forall j :: 0 <= j && j < SL ==> arg2[OL + 8 + j] == seedMaterial[j]
+//@   assert before call bcc#1: forall j :: OL + 8 + SL < j && j < len(arg2) ==> arg2[j] == 0
+//@   loop 1 invariant 0 <= i && i < cd.keyLen && len(key) == cd.keyLen && objof(key) < 0 && cd.keyLen == old(cd.keyLen)
+//@   loop 1 decreases cd.keyLen - i
+//@   loop 2 invariant 0 <= i && i <= blocks && len(temp) == blocks * OL && objof(temp) < 0 && len(S) == lenS + OL && objof(S) < 0 && outlen == OL && block != nil && BS(id(block)) == OL
+//@   loop 2 invariant S[OL + 8 + SL] == 128 && (forall j :: 0 <= j && j < SL ==> S[OL + 8 + j] == seedMaterial[j]) && (forall j :: OL + 8 + SL < j && j < len(S) ==> S[j] == 0)
+//@   loop 2 decreases blocks - i
+//@   loop 3 invariant 0 <= i && len(temp) == returnBytes && objof(temp) < 0 && len(X) == OL && outlen == OL && block != nil && BS(id(block)) == OL
+//@   loop 3 decreases (returnBytes + OL - 1) / OL - i
 //@ func (*CtrDrbg).update trusted
 //@   modifies cd.v[0..len(cd.v)], cd.key[0..len(cd.key)]
 //@ func (*CtrDrbg).newBlockCipher trusted
@@ -65,7 +88,7 @@ package drbg
 
 //@ func (*CtrDrbg).Generate property C17
 //@   config ol in 8,16
-//@   requires len(hd.v) == ol && hd.reseedIntervalInCounter < 18446744073709551615 && !sameobj(out, hd.v)
+//@   requires len(hd.v) == ol && hd.reseedIntervalInCounter < 18446744073709551615 && !sameobj(out, hd.v) && ctrshape(hd) && len(additional) < 2147483648
 //@   let S := state()
 //@   let OL := len(hd.v)
 //@   ensures old(hd.reseedCounter > hd.reseedIntervalInCounter) ==> err == ErrReseedRequired
@@ -85,6 +108,7 @@ package drbg
 //@   modifies everything
 
 //@ func (*CtrDrbg).Reseed property C17
+//@   requires ctrshape(hd)
 //@   let S := state()
 //@   ensures err == nil ==> hd.reseedCounter == 1
 //@   ensures err != nil ==> unchanged(S, *hd)
